@@ -33,10 +33,13 @@ pub struct Log {
     pub folders: AtomicU64,
     /// when >= 0: the consumer panics (injected) when this countdown reaches zero
     pub panic_in: AtomicI64,
+    /// one item in `yield_div` yields the thread, one in 12*yield_div sleeps (scaled down for large tables:
+    /// on a loaded machine a yield can cost a whole time slice)
+    pub yield_div: AtomicU64,
 }
 impl Log {
     pub fn new(budget: i64, noise: u64) -> Log {
-        Log { leaves: Mutex::new(Vec::new()), budget: AtomicI64::new(budget), noise, folders: AtomicU64::new(0), panic_in: AtomicI64::new(-1) }
+        Log { leaves: Mutex::new(Vec::new()), budget: AtomicI64::new(budget), noise, folders: AtomicU64::new(0), panic_in: AtomicI64::new(-1), yield_div: AtomicU64::new(5) }
     }
     pub fn delivered(&self) -> Vec<(u32, u16)> {
         let mut v: Vec<(u32, u16)> = self.leaves.lock().unwrap().iter().flatten().copied().collect();
@@ -113,9 +116,10 @@ impl<'a, T, F: Fn(&T) -> (u32, u16) + Sync> Folder<T> for LogFolder<'a, T, F> {
         }
         // injected delays between items, so that other workers steal and split
         let r = splitmix64(id.0 as u64 ^ self.log.noise);
-        if r % 5 == 0 {
+        let div = self.log.yield_div.load(Ordering::Relaxed).max(1);
+        if r % div == 0 {
             std::thread::yield_now();
-        } else if r % 61 == 0 {
+        } else if r % (12 * div + 1) == 0 {
             std::thread::sleep(std::time::Duration::from_micros(30));
         }
         drop(item);
@@ -140,7 +144,9 @@ type S<T> = hashbrown::HashSet<T, PlanBH, CkAlloc>;
 type Tb<T> = hashbrown::HashTable<T, CkAlloc>;
 
 fn big_map<K: Elem, V: Elem>(n: u32, holes: bool, rng: &mut Rng) -> M<K, V> {
-    let bh = PlanBH::new(*rng.pick(&[Plan::Mixed, Plan::Ident, Plan::Stride, Plan::Palette(4, 4)]), rng.next());
+    // (colliding plans make insertion quadratic: only for small tables)
+    let plans: &[Plan] = if n > 3000 { &[Plan::Mixed, Plan::Ident, Plan::Stride] } else { &[Plan::Mixed, Plan::Ident, Plan::Stride, Plan::Palette(4, 4)] };
+    let bh = PlanBH::new(*rng.pick(plans), rng.next());
     let mut m: M<K, V> = M::with_hasher_in(bh, CkAlloc);
     for id in 0..n {
         m.insert(K::make(id, 1), V::make(id % V::ID_SPACE, 1));
@@ -173,7 +179,11 @@ fn map_delivery<K: Elem, V: Elem>(c: &mut Ctx, rng: &mut Rng) {
         let spec = Spec::random(rng, rcp);
         (build::<MapC<K, V>>(&spec).0, spec.describe())
     } else {
-        let n = if c.is_miri() { 40 } else { *rng.pick(&[10u32, 100, 1000, 5000, 20000]) };
+        // rarely a table of 2^18..2^19 buckets (split code gated on the range length)
+        let n = if c.is_miri() { 40 } else if rng.chance(1, 12) { *rng.pick(&[150_000u32, 300_000]) } else { *rng.pick(&[10u32, 100, 1000, 5000, 20000]) };
+        if n >= 150_000 {
+            c.bump("huge_table_deliveries");
+        }
         let holes = rng.chance(1, 2);
         (big_map(n, holes, rng), format!("big n={} holes={}", n, holes))
     };
@@ -193,6 +203,8 @@ fn map_delivery<K: Elem, V: Elem>(c: &mut Ctx, rng: &mut Rng) {
     c.describe(d);
     c.evaluations += 1;
     let log = Log::new(i64::MAX, rng.next());
+    // at most a few hundred injected yields per run
+    log.yield_div.store((want.len() as u64 / 300).max(5), Ordering::SeqCst);
     let p = pool(threads);
     let mut m = m;
     match which {
@@ -472,7 +484,7 @@ fn undriven_par_drain(c: &mut Ctx, rng: &mut Rng) {
 /// The real RawIterRange::split along explicit decision trees.
 fn split_trees(c: &mut Ctx, rng: &mut Rng) {
     let w = hashbrown::verif::GROUP_WIDTH;
-    let groups = *rng.pick(&[1usize, 2, 3, 4, 5, 6, 8, 16, 64]);
+    let groups = if rng.chance(1, 10) && !c.is_miri() { *rng.pick(&[4096usize, 8192, 16384, 32768]) } else { *rng.pick(&[1usize, 2, 3, 4, 5, 6, 8, 16, 64]) };
     // build a table with exactly `groups` scan groups (or less than one group)
     let small = rng.chance(1, 6);
     let buckets = if small { *rng.pick(&[4usize, 8]) } else { groups * w };
@@ -480,7 +492,7 @@ fn split_trees(c: &mut Ctx, rng: &mut Rng) {
     let cap = hashbrown::verif::bucket_mask_to_capacity(buckets - 1);
     let bh = PlanBH::new(*rng.pick(&[Plan::Mixed, Plan::Ident, Plan::Tail, Plan::Stride]), rng.next());
     let mut m: M<P8, P8> = M::with_capacity_and_hasher_in(cap, bh, CkAlloc);
-    let fill = rng.usize_below(cap + 1);
+    let fill = if groups >= 4096 { rng.usize_below(3000) } else { rng.usize_below(cap + 1) };
     for id in 0..fill as u32 {
         m.insert(P8::make(id, 0), P8::make(id, 0));
     }
@@ -499,7 +511,10 @@ fn split_trees(c: &mut Ctx, rng: &mut Rng) {
     dsc.set("trees", Json::s(if ngroups <= 6 { "every decision bit string" } else { "64 random decision functions" }));
     c.describe(dsc);
     // a decision tree is a function (depth, remaining upper bound) -> split?; enumerate all by a bit string over visit order
-    let n_trees: u64 = if ngroups <= 6 { 1 << (2 * ngroups).min(12) } else { 64 };
+    let n_trees: u64 = if ngroups <= 6 { 1 << (2 * ngroups).min(12) } else if ngroups >= 4096 { 6 } else { 64 };
+    if ngroups >= 4096 {
+        c.bump("huge_split_tables");
+    }
     for t in 0..n_trees {
         let bits = if ngroups <= 6 { t } else { rng.next() };
         let mut visit = 0u32;
